@@ -63,11 +63,16 @@ Definition answer_text (v : env) (cmd text : str) : str :=
   else if streqb cmd CTCP_TIME then 58 :: now_text v
   else cfg_name v ++ idle_sep ++ idle_text v.
 
+(* the one default replier that needs the connection: since 187fc3e handleCTCPFinger
+   answers nothing when client.conn is nil *)
+Definition finger_unanswerable (v : env) (cmd : str) : Prop :=
+  cmd = CTCP_FINGER /\ connected v = false.
+
 (* `answers v e outs`: outs is what a client with the default table may write for e *)
 Inductive answers (v : env) (e : event) : list event -> Prop :=
 | ans_known : forall c name,
     ev_command e = PRIVMSG -> ctcp_message e c -> ev_source e = Some name ->
-    known_query (c_command c) ->
+    known_query (c_command c) -> ~ finger_unanswerable v (c_command c) ->
     answers v e [notice (to_rfc1459 name)
                    (encode_ctcp_raw (c_command c) (answer_text v (c_command c) (c_text c)))]
 | ans_unknown : forall c name,
@@ -77,6 +82,7 @@ Inductive answers (v : env) (e : event) : list event -> Prop :=
     answers v e [notice (to_rfc1459 name) (encode_ctcp_raw CTCP_ERRMSG errmsg_text)]
 | ans_silent :
     (ev_command e <> PRIVMSG \/ ~ is_ctcp e \/ ev_source e = None \/
+     (exists c, ctcp_message e c /\ finger_unanswerable v (c_command c)) \/
      (exists c name, ctcp_message e c /\ ev_source e = Some name /\ ~ known_query (c_command c) /\
         (c_command c = CTCP_ACTION \/ is_valid_nick (to_rfc1459 name) = false))) ->
     answers v e [].
